@@ -436,3 +436,43 @@ def ok(self, cube_resp):
 def payload_self_check() -> int:
     t = ast.parse(PAYLOAD_CONTROL)
     return sum(len(payload_value_truth_tests(f)) for f in t.body)
+
+
+# --------------------------------------------------------------------------- any()/all() over a collection of positions or ids
+_COLLECTION_SUFFIXES = ("_idxs", "_ids", "_indices", "_indexes", "_idx_array")
+
+
+def _is_position_collection(e: ast.AST) -> bool:
+    while isinstance(e, ast.Call) and u(e.func) in ("tuple", "list", "np.array", "np.asarray", "sorted", "set", "frozenset") and e.args:
+        e = e.args[0]
+    if isinstance(e, ast.Name):
+        return e.id.endswith(_COLLECTION_SUFFIXES) or e.id in ("idxs", "ids", "order")
+    if isinstance(e, ast.Attribute):
+        return e.attr.endswith(_COLLECTION_SUFFIXES)
+    return False
+
+
+def value_any_tests(fn: ast.AST) -> List[Tuple[int, str]]:
+    """`any(idxs)` / `np.any(idxs)` / `all(ids)` ask whether some VALUE is non-zero, not whether the collection is
+    non-empty: the collection (0,) - the first element alone - reads as empty."""
+    out = []
+    for n in ast.walk(fn):
+        if isinstance(n, ast.Call) and u(n.func) in ("any", "all", "np.any", "np.all", "np.count_nonzero") and len(n.args) >= 1 and _is_position_collection(n.args[0]):
+            out.append((n.lineno, u(n)[:80]))
+    return out
+
+
+ANY_CONTROL = '''
+def f(self, empty_idxs):
+    self._empty_idxs = tuple(int(i) for i in empty_idxs) if np.any(empty_idxs) else ()
+
+def ok(self, empty_idxs, order):
+    a = any(idx < 0 for idx in order)
+    b = np.any(np.array(empty_idxs) < 0)
+    return tuple(empty_idxs) if len(empty_idxs) else ()
+'''
+
+
+def any_self_check() -> Tuple[int, int]:
+    t = ast.parse(ANY_CONTROL)
+    return len(value_any_tests(t.body[0])), len(value_any_tests(t.body[1]))
